@@ -229,6 +229,12 @@ def check(ctx):
     off = find("offsets = M_v", argr)
     ok = len(off) == 1 and eqv(off[0][1]["M_v"], "list(product(*(accumulate(operator.add, bd[:-1], 0) for bd in x.chunks)))")
     ctx.ob("ABS.arg-offsets.cumulative", argr, "offsets = product of the running sums of x.chunks per axis (accumulate(add, bd[:-1], 0))", ok, "" if ok else "block index times a nominal chunk size is only right for regular chunks: with irregular chunks argmin/argmax return shifted indices")
+    # ---------------- arg reductions over all axes: ties between blocks are broken by the smallest FLAT index
+    acb = mod.func("_arg_combine")
+    tie = find("ties = flat_vals == flat_vals[np.ravel(local_args)[0]]", acb)
+    fix_ = find("arg = arg * 0 + flat_arg[ties].min()", acb)
+    ok = len(tie) == 1 and len(fix_) == 1 and dominates(acb, tie[0][0], fix_[0][0]) and any(eqv(e, "axis is None") and pol for e, pol in cfg_of(acb).facts(fix_[0][0]))
+    ctx.ob("ALG.arg-combine.first-occurrence", acb, "_arg_combine(axis=None): among the candidates equal to the extreme value the smallest flat index wins", ok, "" if ok else "the first tied BLOCK wins instead of the first tied ELEMENT: argmin/argmax of bool / duplicate-heavy n-d arrays differ from NumPy")
 
 
 VARIANTS = [
